@@ -53,6 +53,45 @@ def validate(scr, fam, behs, seed, tier, props, tag):
     return res, lines
 
 
+SWAP = {"issued": "error", "error": "ok", "ok": "error", "auth": "temperr", "temperr": "auth", "empty": "issued", "rotated": "error",
+        "certs": "error", "certs+state": "error", "ok-same": "ok-different", "notauth": "auth", "base": "auth", "subst": "issued",
+        "none": "sp1", "__AUTH__": "__UNAUTH__", "__UNAUTH__": "__AUTH__", "sp1": "__UNAUTH__", "sp2": "__UNAUTH__", "notfound": "ok", "dup": "ok"}
+
+
+def selftest(scr, fam, lines, props):
+    prop = sorted(props)[0]
+    nt = fam.get("nontrivial")
+    cand = [l for l in lines if (fam.get("corrupt") or l.get("res") in SWAP) and (nt is None or nt(prop, l)) and not l.get("unc")]
+    if not cand:
+        return dict(applicable=False)
+    victim = cand[len(cand) // 2]
+    tr = victim["tr"]
+    sub = [json.loads(json.dumps(l)) for l in lines if l["tr"] == tr]
+    for l in sub:
+        if l["i"] == victim["i"]:
+            if fam.get("corrupt"):
+                fam["corrupt"](l)          # family-specific: corrupt a field the trace spec actually reads
+            else:
+                l["res"] = SWAP[victim["res"]]
+                if isinstance(l.get("obs"), dict) and "from" in l["obs"]:
+                    l["obs"]["from"] = l["res"]
+    pth = scr.path("selftest.ndjson")
+    write_ndjson(pth, sub)
+    consts = dict(fam["trace_consts"])
+    if fam.get("partition"):
+        keyfn, consts_by_key = fam["partition"]
+        consts.update(consts_by_key[keyfn(victim)])
+    try:
+        r = run_trace(scr, fam["trace_module"], trace_cfg(consts, props, fam.get("trace_extra", ""), fam.get("trace_spec", "Spec")), pth, expect_lines=len(sub))
+    except Broken as e:
+        # a corrupted line may make the trace spec itself fail: that is a detection too
+        return dict(applicable=True, detected=True, how="trace spec rejected the corrupted trace outright", line=[tr, victim["i"]])
+    detected = any(x[-2] == tr and x[-1] == victim["i"] for x in r["viol"]) or any(x[0] == tr and x[1] == victim["i"] for x in r["drift"]) or \
+        bool(r["viol"]) or bool(r["drift"])
+    return dict(applicable=True, detected=detected, line=[tr, victim["i"]], from_res=victim["res"], to_res=SWAP.get(victim["res"], "family-specific"),
+                viol=len(r["viol"]), drift=len(r["drift"]))
+
+
 def check(prop, fam, tier, seed, replay=None):
     t0 = time.time()
     scr = Scratch(prop)
@@ -204,6 +243,12 @@ def _check(prop, fam, tier, seed, replay, scr, t0):
         known_findings_hit=known_hit,
         exhaustive=False,
     )
+    # binding self-test: corrupt the recorded result of one non-trivial line; the trace spec must notice
+    # (VIOL or DRIFT), otherwise the validation constrains nothing and the check is broken
+    st = selftest(scr, fam, lines, props)
+    coverage["binding_selftest"] = st
+    if st.get("applicable") and not st.get("detected"):
+        raise Broken("binding self-test: a corrupted trace line was accepted silently: %s" % json.dumps(st))
     if fam.get("post"):
         reported += fam["post"](prop, tier, int(seed), scr, coverage, known)
     write_evidence(prop, tier, seed, fam.get("level", "model_checking"), coverage, time.time() - t0, reported,
